@@ -6,8 +6,11 @@ Absent == [absent |-> TRUE]
 L(x) == [list |-> x]
 OpSecs == {Absent, L(<<>>), L(<< <<>> >>), L(<< <<"A">> >>), L(<< <<"A", "B">> >>), L(<< <<"A">>, <<"B">> >>),
            L(<< <<"A", "B">>, <<"C">> >>), L(<< <<"A">>, <<>> >>), L(<< <<"B">>, <<"A", "C">> >>),
-           L(<< <<"A", "B">>, <<"A">> >>), L(<< <<"A", "B">>, <<"B">> >>), L(<< <<"A", "B">>, <<"B", "C">>, <<"A">> >>)}
-DocSecs == {<<>>, << <<"A">> >>, << <<"B">> >>}
+           L(<< <<"A", "B">>, <<"A">> >>), L(<< <<"A", "B">>, <<"B">> >>), L(<< <<"A", "B">>, <<"B", "C">>, <<"A">> >>),
+           \* "U" is a scheme name components.securitySchemes does not declare (document validation accepts that): an
+           \* alternative naming it can never be satisfied, the others are unaffected
+           L(<< <<"U">> >>), L(<< <<"U">>, <<"A">> >>), L(<< <<"A">>, <<"U">> >>), L(<< <<"A", "U">>, <<"B">> >>)}
+DocSecs == {<<>>, << <<"A">> >>, << <<"B">> >>, << <<"U">>, <<"B">> >>}
 
 P(in, name, kind) == [in |-> in, name |-> name, kind |-> kind]
 V(in, name, text) == [in |-> in, name |-> name, text |-> text]
